@@ -219,11 +219,11 @@ def void_layout_hits(impl_lines, ecap):
     stores = 0
     for l in impl_lines:
         t = l.split(" ")
-        if t[0] != "0":
+        if t[0] != "0" or len(t) < 3:
             continue
-        if t[1] == "ev" and t[2] == "inv_vpush":
+        if t[1] == "ev" and t[2] == "inv_vpush" and len(t) >= 4 and t[3].isdigit():
             in_op = True; stores = 0; size = int(t[3])
-        elif t[1] == "st" and in_op and len(t) >= 6:
+        elif t[1] == "st" and in_op and len(t) >= 6 and t[5][1:].isdigit():
             v = int(t[5][1:])
             stores += 1
             if v % ecap == 0 and (v - back) != real_size(size):
